@@ -202,7 +202,7 @@ func c18Drive(c *Case, lim *rate.Limiter, ts []int64) (grants []int64) {
 
 func runC18(r *Run) {
 	r.CaseTimeout = 120 * time.Second // the operator-level case bounds itself at 50 s and turns inconclusive
-	r.Rule = "(a) the rate.Limiter returned by the real CreateRateLimiter for random (I, B) — I from 1 ms to 5 s incl. values that are not a whole number of ms, B from 0 (= default 1) to 10 — driven through ReserveN(t,1).DelayFrom(t) with 20..80 (thorough 100) explicit request times on a millisecond grid in 7 arrival patterns (one burst, faster than I, slower than I, exactly I, bursts with gaps, mixed, random); every delay is compared with the integer model (tolerance 1 us) and the window bound B+ceil(T/I) is checked exactly on the limiter's own grant times for every window; unthrottled configurations (no settings, I = 0, I < 0) must never delay; a few cases with request times going backwards exercise the clamp and are checked against the skew bound B+ceil((T+S)/I). 35 % of these cases take the limiter not from CreateRateLimiter but from a HOOK: the same settings written in a hook configuration together with a random non-empty set of other bindings (onStartup, schedule, kubernetes, kubernetesValidating, kubernetesMutating, kubernetesCustomResourceConversion) and loaded by the real Hook.LoadConfig, whose h.RateLimiter is then driven (op line hookcfg; the bound must hold whatever the other bindings are). (b) settings blocks loaded through the real HookConfig.LoadAndValidate -> CreateRateLimiter -> Limit()/Burst(); (b') corpus: settings + each kind of other binding through Hook.LoadConfig. (c) wall-clock runs (2 quick, 8 thorough) of Hook.RateLimitWait from 1..3 goroutines (queues), start times measured with time.Now(), bound checked with a 40 ms allowance for timer lateness (runtime observation; inconclusive rather than failing when the scheduler was late). (d) ShellOperator.taskHandleHookRun itself (hooks loaded from a generated hooks directory through the real hook manager, `settings` in the hook's --config output) called for queued HookRun tasks from 1..3 goroutines; the hook script logs its own start time; the hook has a random set of other bindings (webhooks included) and every task is for an onStartup, a schedule, a kubernetes event or a kubernetes Synchronization; the bound is checked with a 120 ms allowance for process start-up (2 runs quick, 5 thorough, one of them unthrottled). (e) the operator's queues (7 corpus + 4 quick / 16 thorough runs): 1-2 generated hooks (the first with `settings`, the second with its own settings or none; half of the hooks ALSO have webhook bindings - kubernetesValidating / kubernetesMutating / kubernetesCustomResourceConversion - and 30 % an onStartup binding; for the admission bindings the real initValidatingWebhookManager installs the operator's admission handler and 1-2 admission requests per binding are answered through the real router -> op.taskHandler while the queues work: these executions are not queued and are not counted, the queued ones must keep the bound) with 1-2 schedule bindings in each of 1-3 queues (main and named ones, `queue:` in the hook configuration), schedule events (the real schedule callback of initHookManager) arriving as one burst, a steady stream or at random over ~2.5 intervals and added to the real named queues (NewNamedQueue with the operator's task handler, back-off shortened to 15-40 ms); some bindings FAIL their first 1-3 executions (without allowFailure: the queue retries the task; with allowFailure: no retry), 45 % of the failing ones not with an exit code but because the hook process is KILLED BY A SIGNAL (kill -KILL $$, nothing on stderr - what the OOM killer does); hooks share queues. Every execution START is counted — retries and executions from all queues of the hook — from the time stamps the hook processes write; of each execution the harness knows an interval [lo, hi] containing its grant (lo = the later of: the first event of its binding was queued, the previous execution in the same queue started; hi = its own time stamp), and the bound is checked exactly on every window [lo_i, hi_j] (oracle boundiv; no assumption on process start-up times, S = 0 for a hook living in one queue, 50 ms clock-read skew allowance for several queues). (f) start-up of the WHOLE operator on a fake cluster (3 corpus + 3 quick / 10 thorough runs): one generated hook with `settings` (10 %: without) and 3-6 kubernetes bindings (ConfigMap / Secret / Pod; 15 % of them in a group, 12 % with executeHookOnSynchronization: false, 25 % with a queue of their own), optionally onStartup / schedule / webhook bindings as well; VerifAssembleC01 + VerifStart = the real bootstrapMainQueue, the main queue worker, taskHandleEnableKubernetesBindings (one Synchronization HookRun task per binding, HeadTasks of main) -> taskHandler -> taskHandleHookRun -> Hook.Run, real informers; after the start-up burst 0-4 ConfigMaps are created and the Event executions arrive through ManagerEventsHandler and the bindings' queues. Executions are counted from the hook processes' own first-action time stamps; lo of an execution = the operator's start / the first object creation (Event executions) / the previous execution certainly run by the same queue; oracle boundiv as in (e). (g) the operator's queues again (5 corpus + 4 quick / 14 thorough runs), for the two ends of the quantifier that (e) does not reach: LONG SERIES - one hook with `settings` (I 0.7-1.2 s, B 1-2), 1-2 schedule bindings in each of 1-3 queues; after the burst is spent by single events, 2-3 waves of 150..450 events each (15 %: 600..2000; sometimes split over two bindings of the queue) are queued while the task at the head of the queue waits in RateLimitWait, each wave when a hook process has started since the previous one; the real taskHandleHookRun combines every wave into ONE HookRun task with hundreds of binding contexts; each hook process logs its start time and the number of binding contexts it was given (op line operator-series: the contexts delivered are the events queued); LONG INTERVALS - I from 11 s to 24 h (B 1-3): B+2..B+4 single events, each queued when the queues are empty or 150-300 ms after the previous one, 35 % of the runs with 150..450 events already in the queue when it is started; the interval is not waited out: the run is observed until the queues are empty or 1.2 s after the last event (one corpus run: 12.5 s, longer than any slice a bounded wait might use) and then abandoned (workers stay blocked in Limiter.Wait), and whatever HAS started is checked. Both: oracle boundiv exactly as in (e) on the hook processes' own time stamps. Non-trivial: >= 20 requests of which at least one was delayed; distinct = distinct op-line sequences."
+	r.Rule = "(a) the rate.Limiter returned by the real CreateRateLimiter for random (I, B) — I from 1 ms to 5 s incl. values that are not a whole number of ms, B from 0 (= default 1) to 10 — driven through ReserveN(t,1).DelayFrom(t) with 20..80 (thorough 100) explicit request times on a millisecond grid in 7 arrival patterns (one burst, faster than I, slower than I, exactly I, bursts with gaps, mixed, random); every delay is compared with the integer model (tolerance 1 us) and the window bound B+ceil(T/I) is checked exactly on the limiter's own grant times for every window; unthrottled configurations (no settings, I = 0, I < 0) must never delay; a few cases with request times going backwards exercise the clamp and are checked against the skew bound B+ceil((T+S)/I). 35 % of these cases take the limiter not from CreateRateLimiter but from a HOOK: the same settings written in a hook configuration together with a random non-empty set of other bindings (onStartup, schedule, kubernetes, kubernetesValidating, kubernetesMutating, kubernetesCustomResourceConversion) and loaded by the real Hook.LoadConfig, whose h.RateLimiter is then driven (op line hookcfg; the bound must hold whatever the other bindings are). (b) settings blocks loaded through the real HookConfig.LoadAndValidate -> CreateRateLimiter -> Limit()/Burst(); (b') corpus: settings + each kind of other binding through Hook.LoadConfig. (c) wall-clock runs (2 quick, 8 thorough) of Hook.RateLimitWait from 1..3 goroutines (queues), start times measured with time.Now(), bound checked with a 40 ms allowance for timer lateness (runtime observation; inconclusive rather than failing when the scheduler was late). (d) ShellOperator.taskHandleHookRun itself (hooks loaded from a generated hooks directory through the real hook manager, `settings` in the hook's --config output) called for queued HookRun tasks from 1..3 goroutines; the hook script logs its own start time; the hook has a random set of other bindings (webhooks included) and every task is for an onStartup, a schedule, a kubernetes event or a kubernetes Synchronization; the bound is checked with a 120 ms allowance for process start-up (2 runs quick, 5 thorough, one of them unthrottled). (e) the operator's queues (7 corpus + 4 quick / 16 thorough runs): 1-2 generated hooks (the first with `settings`, the second with its own settings or none; half of the hooks ALSO have webhook bindings - kubernetesValidating / kubernetesMutating / kubernetesCustomResourceConversion - and 30 % an onStartup binding; for the admission bindings the real initValidatingWebhookManager installs the operator's admission handler and 1-2 admission requests per binding are answered through the real router -> op.taskHandler while the queues work: these executions are not queued and are not counted, the queued ones must keep the bound) with 1-2 schedule bindings in each of 1-3 queues (main and named ones, `queue:` in the hook configuration), schedule events (the real schedule callback of initHookManager) arriving as one burst, a steady stream or at random over ~2.5 intervals and added to the real named queues (NewNamedQueue with the operator's task handler, back-off shortened to 15-40 ms); some bindings FAIL their first 1-3 executions (without allowFailure: the queue retries the task; with allowFailure: no retry), 45 % of the failing ones not with an exit code but because the hook process is KILLED BY A SIGNAL (kill -KILL $$, nothing on stderr - what the OOM killer does); hooks share queues. Every execution START is counted — retries and executions from all queues of the hook — from the time stamps the hook processes write; of each execution the harness knows an interval [lo, hi] containing its grant (lo = the later of: the first event of its binding was queued, the previous execution in the same queue started; hi = its own time stamp), and the bound is checked exactly on every window [lo_i, hi_j] (oracle boundiv; no assumption on process start-up times, S = 0 for a hook living in one queue, 50 ms clock-read skew allowance for several queues). (f) start-up of the WHOLE operator on a fake cluster (3 corpus + 3 quick / 10 thorough runs): one generated hook with `settings` (10 %: without) and 3-6 kubernetes bindings (ConfigMap / Secret / Pod; 15 % of them in a group, 12 % with executeHookOnSynchronization: false, 25 % with a queue of their own), optionally onStartup / schedule / webhook bindings as well; VerifAssembleC01 + VerifStart = the real bootstrapMainQueue, the main queue worker, taskHandleEnableKubernetesBindings (one Synchronization HookRun task per binding, HeadTasks of main) -> taskHandler -> taskHandleHookRun -> Hook.Run, real informers; after the start-up burst 0-4 ConfigMaps are created and the Event executions arrive through ManagerEventsHandler and the bindings' queues. Executions are counted from the hook processes' own first-action time stamps; lo of an execution = the operator's start / the first object creation (Event executions) / the previous execution certainly run by the same queue; oracle boundiv as in (e). (g) the operator's queues again (5 corpus + 4 quick / 14 thorough runs), for the two ends of the quantifier that (e) does not reach: LONG SERIES - one hook with `settings` (I 0.7-1.2 s, B 1-2), 1-2 schedule bindings in each of 1-3 queues; after the burst is spent by single events, 2-3 waves of 150..450 events each (15 %: 600..2000; sometimes split over two bindings of the queue) are queued while the task at the head of the queue waits in RateLimitWait, each wave when a hook process has started since the previous one; the real taskHandleHookRun combines every wave into ONE HookRun task with hundreds of binding contexts; each hook process logs its start time and the number of binding contexts it was given (op line operator-series: the contexts delivered are the events queued); LONG INTERVALS - I from 11 s to 24 h (B 1-3): B+2..B+4 single events, each queued when the queues are empty or 150-300 ms after the previous one, 35 % of the runs with 150..450 events already in the queue when it is started; the interval is not waited out: the run is observed until the queues are empty or 1.2 s after the last event (one corpus run: 12.5 s, longer than any slice a bounded wait might use) and then abandoned (workers stay blocked in Limiter.Wait), and whatever HAS started is checked. Both: oracle boundiv exactly as in (e) on the hook processes' own time stamps. (f') half of the start-up runs that create objects (and corpus runs 23, 24) insert a QUIET PERIOD of B+2..B+4 intervals between the end of the Synchronization burst and the first object (the bucket refills to B and no further), then the events come either side by side (every ConfigMap binding in a queue of its own: one object = one execution per binding) or one by one (each object created when an execution has started since the previous one, so nothing is combined); at the end of every start-up run Limit()/Burst() of the hook's limiter are compared with the settings again (op line hookcfg-after). (h) HOOKS DIRECTORIES (3 corpus + 40 quick / 300 thorough): 2-5 hooks in one directory, loaded by the real hook manager (Manager.Init -> loadHook -> hook --config -> Hook.LoadConfig), whose relative paths are NEAR each other - the same words joined by / - _ . blank -- __ -_, upper / lower / capitalised, sometimes an unrelated name as well - each hook with its own settings (I from 50 ms to 1 h, B 1-5) or none; 30-80 (thorough 120) requests on a millisecond grid in the 7 arrival patterns dealt to the hooks round-robin, in blocks or at random, each through ReserveN(t,1).DelayFrom(t) on the Hook.RateLimiter of its hook; every delay is compared with the model of THAT hook's limiter (op lines hookload / hreq) and the property is checked per hook on its own grant times: oracle bound for a hook with settings, oracle nodelay for a hook without. Non-trivial: >= 20 requests of which at least one was delayed; distinct = distinct op-line sequences."
 
 	// ---- corpus ----
 	r.One(0, func(c *Case, _ *Rng) {
@@ -597,12 +597,16 @@ func runC18(r *Run) {
 	r.Cases(960000, r.N(4, 16), 4, func(c *Case, rng *Rng) { c18RunQueues(r, c, c18RandomScenario(rng)) })
 
 	// ---- (f) start-up of the whole operator on a fake cluster: the burst of Synchronization executions ----
-	r.Cases(20, 3, 3, func(c *Case, rng *Rng) { c18RunStartup(r, c, c18StartupCorpus(c.Idx)) })
+	r.Cases(20, 5, 3, func(c *Case, rng *Rng) { c18RunStartup(r, c, c18StartupCorpus(c.Idx)) })
 	r.Cases(970000, r.N(3, 10), 3, func(c *Case, rng *Rng) { c18RunStartup(r, c, c18StartupRandom(rng)) })
 
 	// ---- (g) long combined series (150..450 events behind a waiting head task) and long intervals (11 s .. 24 h) ----
 	r.Cases(30, 5, 5, func(c *Case, rng *Rng) { c18RunLong(r, c, c18LongCorpus(c.Idx)) })
 	r.Cases(980000, r.N(4, 14), 4, func(c *Case, rng *Rng) { c18RunLong(r, c, c18LongRandom(rng)) })
+
+	// ---- (h) a hooks directory with several hooks whose names are near each other, loaded by the real hook manager ----
+	r.Cases(40, 3, 3, func(c *Case, rng *Rng) { c18RunSet(r, c, c18SetCorpus(c.Idx), rng) })
+	r.Cases(990000, r.N(40, 300), 8, func(c *Case, rng *Rng) { c18RunSet(r, c, c18SetRandom(rng, r.Thorough()), rng) })
 }
 
 // c18BoundOK is used only to choose between "check", "report" and "inconclusive" for the wall-clock
